@@ -17,13 +17,22 @@ ROUNDS = {'quick': 2, 'thorough': 4}
 ASSUMPTIONS = ['feasible set computed by the oracle, not taken from the exhaustive search output', 'ValueError from either search is an accepted outcome (C09)']
 
 
+def _shared_capped(spec):
+  """A capped searcher whose data object is also used by an uncapped one between its searches."""
+  spec['history'] = 'shared-data'
+  if spec['params'].get('n_geos_max') is None:
+    spec['params']['n_geos_max'] = max(2, len(spec['panel']['ids']) - 1)
+  return spec
+
+
 def strategy(tier):
   big = 6 if tier == 'quick' else 8
   kw = dict(allow_budget=False, allow_share=False)
   return st.one_of(G.search_spec(max_geos=big, min_geos=2, constraint_p=0.45, **kw),
                    G.search_spec(max_geos=big, min_geos=3, constraint_p=0.3, elig_style='mixed', **kw),
                    G.search_spec(max_geos=big, min_geos=3, constraint_p=0.3, elig_style='fixed-heavy', **kw),
-                   G.ratio_boundary_spec(max_geos=8))
+                   G.ratio_boundary_spec(max_geos=8),
+                   G.search_spec(max_geos=big, min_geos=3, constraint_p=0.25, **kw).map(_shared_capped))
 
 
 def run(spec):
